@@ -271,8 +271,8 @@ package handler
 //@ let t0 = now.ns
 //@ ensures[C06,C17] result.ns == t0 - mod(t0 - SUN0, WEEK) && isUTC(result.loc)
 //@ loop 1
-//@ invariant[C06,C17,C07] isUTC(now.loc) && 0 <= t0 - now.ns && t0 - now.ns <= 6 * DAY && t0 - now.ns == DAY * (mod(div(t0, DAY) + 4, 7) - mod(div(now.ns, DAY) + 4, 7))
-//@ decreases mod(div(now.ns, DAY) + 4, 7)
+//@ invariant[C06,C17] isUTC(now.loc) && 0 <= t0 - now.ns && t0 - now.ns <= 6 * DAY && t0 - now.ns == DAY * (mod(div(t0, DAY) + 4, 7) - mod(div(now.ns, DAY) + 4, 7))
+//@ decreases[C06,C17] mod(div(now.ns, DAY) + 4, 7)
 
 //@ func New
 //@ arith wrap
